@@ -144,3 +144,88 @@ Theorem C11_conservation_any_state :
     (forall c, In c (closed s) -> ~ In c (entlog s)).
 Proof. exact conservation_short. Qed.
 Print Assumptions C11_conservation_any_state.
+
+(* ---- the tie to the source by translation: coq/gen/GenTaskMgr.v is regenerated from
+   src/eascheduler/task_managers/{base,sequential,parallel}.py on every run (tools/gen_taskmgr.py); these theorems are
+   re-checked against it.  [gen_create_task m] / [gen_run_cb m] are the generated create_task / done-callback
+   dispatcher of the class that m stands for, over the model's state plus the table of add_done_callback
+   registrations ([mkrt s r]); [cfg_ok m] = the translated guard of __init__ did not raise (max_queue >= 1). *)
+From EAS Require GenRtTaskMgr GenTaskMgrEq.
+Import GenRtTaskMgr GenTaskMgrEq.
+Theorem C11_generated_source_recognised : EASGen.GenTaskMgr.gen_taskmgr_status_v = EASGen.GenTaskMgr.GenTaskMgrOk.
+Proof. exact gen_taskmgr_recognised. Qed.
+Print Assumptions C11_generated_source_recognised.
+
+(* create_task computes the model's submission step, returns the task it created (if any) and registers
+   self._task_done on exactly that task; on every state of the invariant *)
+Theorem C11_generated_create_task_is_submit :
+  forall m s r c k n, is_seq m = true -> Inv m s -> cfg_ok m -> ph s c = Unknown ->
+    gen_create_task m c k n (mkrt s r) =
+    (mkrt (submit m s c k) (addreg r (submit_rv m s c k) (cb_of m)), Ret (submit_rv m s c k)) /\
+    cb_of m = CbTaskDone /\
+    started (submit m s c k) = started s ++ olist (submit_rv m s c k).
+Proof.
+  exact (fun m s r c k n Hs Hi Hc Hu =>
+    conj (gen_create_task_is_submit m s r c k n Hi Hc Hu)
+      (conj (match m return is_seq m = true -> cb_of m = CbTaskDone with
+             | MSeq | MSeqLim _ _ | MSeqDedup => fun _ => eq_refl
+             | MPar | MParLim _ _ => fun H => match Bool.diff_false_true H with end
+             end Hs)
+            (eq_trans (f_equal started (submit_unknown m s c k Hu)) (submit_started m s c k Hc)))).
+Qed.
+Print Assumptions C11_generated_create_task_is_submit.
+
+(* SequentialTaskManager needs nothing: every state, every coroutine *)
+Theorem C11_generated_plain_create_task_every_state :
+  forall c k s r,
+    EASGen.GenTaskMgr.SequentialTaskManager.create_task c k (mkrt s r) =
+    (mkrt (submit_seq s c k) (addreg r (seq_rv s (submit_seq s c k)) CbTaskDone), Ret (seq_rv s (submit_seq s c k))).
+Proof. exact seq_create_task. Qed.
+Print Assumptions C11_generated_plain_create_task_every_state.
+
+(* at a Submit event of any history, and for every submission made from inside a running body *)
+Theorem C11_generated_create_task_at_submit_event :
+  forall m evs r c k n, cfg_ok m -> ph (run m evs) c = Unknown ->
+    ms (fst (gen_create_task m c k n (mkrt (set_flag (run m evs) false) r))) = step m (run m evs) (Submit c k).
+Proof. exact gen_create_task_reachable. Qed.
+Print Assumptions C11_generated_create_task_at_submit_event.
+
+Theorem C11_generated_create_task_inside_bodies :
+  forall m s x r0 b, Inv m s -> cfg_ok m -> ready s = HStep x :: r0 -> takes_beh s x = true ->
+  exists s1 w, run_step m (set_ready s r0) x b = end_step (submits m s1 (fst b)) x w (snd b) /\
+    forall pre c k post r n, fst b = pre ++ (c, k) :: post -> ph (submits m s1 pre) c = Unknown ->
+      gen_create_task m c k n (mkrt (submits m s1 pre) r) =
+      (mkrt (submits m s1 (pre ++ [(c, k)])) (addreg r (submit_rv m (submits m s1 pre) c k) (cb_of m)),
+       Ret (submit_rv m (submits m s1 pre) c k)).
+Proof. exact gen_create_task_mid_body. Qed.
+Print Assumptions C11_generated_create_task_inside_bodies.
+
+(* _task_done as a done-callback computes what the model runs at an HDone handle; on EVERY state *)
+Theorem C11_generated_task_done_is_model :
+  forall m s r c, is_seq m = true ->
+    gen_run_cb m CbTaskDone c (mkrt s r) = (mkrt (seq_done_cb s c) (addreg r (next_of s) CbTaskDone), Ret tt).
+Proof.
+  exact (fun m s r c =>
+    match m return is_seq m = true -> gen_run_cb m CbTaskDone c (mkrt s r) = _ with
+    | MSeq => fun _ => seq_run_cb c s r
+    | MSeqLim q p => fun _ => seqlim_run_cb q p c s r
+    | MSeqDedup => fun _ => dedup_run_cb c s r
+    | MPar | MParLim _ _ => fun H => match Bool.diff_false_true H with end
+    end).
+Qed.
+Print Assumptions C11_generated_task_done_is_model.
+
+Theorem C11_generated_hdone_is_model :
+  forall m s r c d, ph s c = Done d ->
+    ms (fst (gen_run_cb m (cb_of m) c (mkrt (set_ph s (upd (ph s) c (Processed d))) r))) = run_done m s c.
+Proof. exact gen_run_done_is_model. Qed.
+Print Assumptions C11_generated_hdone_is_model.
+
+(* every task the generated code ever created carries exactly one registered done-callback, the one the model runs *)
+Theorem C11_generated_callbacks_registered :
+  forall m, RegOk m (mkrt init []) /\
+    (forall s c k n, RegOk m s -> Inv m (ms s) -> cfg_ok m -> ph (ms s) c = Unknown ->
+       RegOk m (fst (gen_create_task m c k n s))) /\
+    (forall s c, RegOk m s -> RegOk m (fst (gen_run_cb m (cb_of m) c s))).
+Proof. exact (fun m => conj (regs_ok_init m) (conj (regs_ok_create_task m) (regs_ok_run_cb m))). Qed.
+Print Assumptions C11_generated_callbacks_registered.
